@@ -63,7 +63,7 @@ func (e *kvElection) watchLoop(ctx context.Context) {
 // checkKeyAndReelect checks if the key exists and triggers re-election if it doesn't.
 // This is a fallback for cases where NATS watchers don't reliably send deletion events.
 func (e *kvElection) checkKeyAndReelect(ctx context.Context) {
-	if e.IsLeader() {
+	if e.IsLeader() || ctx.Err() != nil {
 		return
 	}
 
